@@ -203,7 +203,21 @@ func sweepText(t *rapid.T) []byte {
 	cfg := gen.DocCfg{WS: true, Wide: true, LongStr: true, MaxDepth: 6, MaxWidth: 8,
 		Dups:    rapid.Bool().Draw(t, "dups"),
 		BadUTF8: rapid.Bool().Draw(t, "badutf8")}
-	switch rapid.IntRange(0, 9).Draw(t, "sweeptext") {
+	switch rapid.IntRange(0, 10).Draw(t, "sweeptext") {
+	case 10:
+		// a first value whose length is exactly (or next to) a size of the
+		// decoder's buffer, followed by more input: full-buffer refills
+		n := rapid.SampledFrom([]int{64, 128, 256, 512, 1024, 2048, 4096, 8192}).Draw(t, "bufsize") + rapid.IntRange(-2, 2).Draw(t, "bufdelta")
+		var v []byte
+		switch rapid.IntRange(0, 2).Draw(t, "exactkind") {
+		case 0:
+			v = append(append([]byte{'"'}, bytes.Repeat([]byte("a"), n-2)...), '"')
+		case 1:
+			v = append(append([]byte{'['}, bytes.Repeat([]byte(" "), n-2)...), ']')
+		default:
+			v = append(append([]byte(`{"k":"`), bytes.Repeat([]byte("b"), max(n-8, 0))...), '"', '}')
+		}
+		return append(v, rapid.SampledFrom([]string{"\n", " ", "\n1", "", " x", "\n\n"}).Draw(t, "exacttail")...)
 	case 0, 1, 2, 3:
 		return gen.Text(t, cfg)
 	case 4, 5:
